@@ -27,7 +27,8 @@ structural fact of the two query loops); regenerated from /repo on every run. -/
 theorem code_shape_facts :
     offsetPositiveBranchSettles = true ∧ fiteratorSetBackwardDropsCache = true ∧ backwardEofKeepsPos = true ∧
     fwdEndPosFromDecisionCount = true ∧ bothLoopsClampAndCount = true ∧ cacheIsWaitOrClamped = true ∧
-    newCursorSortsSources = true ∧ emptyCursorKeepsState = true ∧ applyStateDropsBuffers = true := by decide
+    newCursorSortsSources = true ∧ emptyCursorKeepsState = true ∧ applyStateDropsBuffers = true ∧
+    advanceKeepsIteratorPos = true := by decide
 
 /-- widths of the position text as the code has them now -/
 theorem pos_widths_generated :
@@ -271,34 +272,32 @@ theorem chain_started_empty_delivers :
     let (_, p2) := query queryMaxLimit s1' { p1.next with limit := 5 }
     p1.events = [] ∧ p1.next.query = some q ∧ p2.events.map (·.lbl) = [0, 1] := by decide +kernel
 
-/-! ### open finding F59: the ranged tail reader at the end of the LAST chunk (the unrepaired half of #34)
+/-! ### the ranged tail reader at the end of the LAST chunk (finding F59, the second half of #34; repaired by 008ef8e)
 
 One chunk (id 10). The reader has delivered the 3 confirmed records and asks for the next one: its chunk iterator
 answers EOF against the journal as it is (`jd`, 3 records); before `advanceChunk → ensureChkIt → getPosForward` read
-the chunk's count in the `idx == n` branch the writer confirms 7 more (`ja`, 10 records). -/
+the chunk's count in the `idx == n` branch the writer confirms 7 more (`ja`, 10 records). `rGetObs jd ja` is that
+call with the observation split. -/
 
 def f59jd : Journal := [⟨10, [r 0, r 1, r 2], 0, maxU32⟩]
 def f59ja : Journal := [⟨10, [r 0, r 1, r 2, r 3, r 4, r 5, r 6, r 7, r 8, r 9], 0, maxU32⟩]
 /-- the reader after three `Get; Next` rounds over `jd` -/
 def f59reader : RIt := rNext f59jd (rNext f59jd (rNext f59jd {}))
 
-/-- **as the code is** (`keepsItPos = false`): the position jumps to (10, 10) and records 3..9 are never delivered —
-neither by this call nor by any later one. -/
-theorem cex_tail_skip_last_chunk :
-    (rGetObs false f59jd f59ja f59reader).2 = none ∧
-    (rGetObs false f59jd f59ja f59reader).1.pos = ⟨10, 10⟩ ∧
-    rDrain f59ja 20 (rGetObs false f59jd f59ja f59reader).1 = [] := by decide +kernel
+/-- the old witness, now passing: the call answers EOF, the position stays where the chunk iterator stopped, (10, 3),
+and the next calls deliver records 3..9 (the position used to jump to (10, 10): records 3..9 lost for good). -/
+theorem tail_no_skip_last_chunk :
+    (rGetObs f59jd f59ja f59reader).2 = none ∧ (rGetObs f59jd f59ja f59reader).1.pos = ⟨10, 3⟩ ∧
+    (rDrain f59ja 20 (rGetObs f59jd f59ja f59reader).1).map (·.lbl) = [3, 4, 5, 6, 7, 8, 9] := by decide +kernel
 
-/-- **with the proposed repair** (`proposed-fixes/F59.diff`, `keepsItPos = true`): the end-of-data position is where
-the chunk iterator stopped, (10, 3), and the next calls deliver records 3..9. -/
-theorem tail_no_skip_last_chunk_repaired :
-    (rGetObs true f59jd f59ja f59reader).1.pos = ⟨10, 3⟩ ∧
-    (rDrain f59ja 20 (rGetObs true f59jd f59ja f59reader).1).map (·.lbl) = [3, 4, 5, 6, 7, 8, 9] := by decide +kernel
-
-/-- without a writer in between (`jd = ja`) both shapes deliver the same and stand at the same flat end -/
-theorem tail_quiescent_same :
-    rDrain f59ja 20 (rGetObs false f59ja f59ja (rNext f59ja {})).1 = rDrain f59ja 20 (rGetObs true f59ja f59ja (rNext f59ja {})).1 := by
-  decide +kernel
+/-- the same for every amount confirmed before (1..4 of 6 records) and a growth to all 6 -/
+theorem tail_no_skip_last_chunk_grid :
+    let all := [r 0, r 1, r 2, r 3, r 4, r 5]
+    ∀ c1 ∈ [1, 2, 3, 4],
+      let jd : Journal := [⟨10, all.take c1, 0, maxU32⟩]
+      let ja : Journal := [⟨10, all, 0, maxU32⟩]
+      let reader := (List.range c1).foldl (fun s _ => rNext jd s) ({} : RIt)
+      rDrain ja 20 (rGetObs jd ja reader).1 = all.drop c1 := by decide +kernel
 
 /-- #40: a held cursor never sees a partition created after it; the same chain resumed by position only does. -/
 theorem cex_held_cursor_misses_new_partition :
